@@ -258,5 +258,11 @@ def main(argv=None):
     except (T.TLCFailure, Vacuity, RuntimeError) as e:
         print(f"MACHINERY-FAILURE property={prop}: {e}", file=sys.stderr, flush=True)
         return 2
+    except Exception:  # noqa: BLE001 - a bug in a driver is a machinery failure, never a verdict
+        import traceback
+
+        print(f"MACHINERY-FAILURE property={prop}: unexpected exception in the check\n"
+              + traceback.format_exc(), file=sys.stderr, flush=True)
+        return 2
     finally:
         T.cleanup_scratch()
